@@ -14,7 +14,7 @@ from __future__ import annotations
 
 from ..facts import abs_range, atoms, call_is, cut_normalise, equality_atoms, reads_of, root_of, slice_bounds, strip
 from ..model import AnalysisError
-from ..terms import is_const, show, subterms, summarize
+from ..terms import is_const, show, subterms, summarize, unview
 
 FN = "msmart.lan._Packet.decode"
 SIGN = "msmart.lan.Security.sign"
@@ -55,6 +55,21 @@ def run(ctx):
     ds = sign_digest_size(ctx)
     s = summarize(prog, fn)
     file = fn.module.rel
+    # the signature covers its whole argument: sign(data) hashes data in full together with the key (a sign that skips or truncates part
+    # of what it is given leaves those bytes unauthenticated, however decode compares the result)
+    sfn = ctx.fn(SIGN)
+    st_ = summarize(prog, sfn).return_term()
+    hashed = strip(st_[1][1][2][0]) if st_[0] == "call" and st_[1][0] == "meth" and st_[1][1][0] == "call" and st_[1][1][2] else None
+    dp = ("param", sfn.params[-1])
+
+    def parts(x):
+        x = strip(x)
+        return parts(x[2]) + parts(x[3]) if x[0] == "bin" and x[1] == "+" else [x]
+    ps = [unview(y) for y in parts(hashed)] if hashed is not None else []
+    whole = ps.count(dp) == 1 and all(y == dp or not any(z == dp for z in subterms(y)) for y in ps)
+    ctx.ob("C03.a", SIGN, whole, "Security.sign hashes the whole of its argument (with the key)", func=SIGN, file=sfn.module.rel, construct="sign",
+           detail={"hashed": show(hashed)[:160] if hashed is not None else None},
+           fail=f"Security.sign does not hash its whole argument (`{show(hashed)[:100] if hashed is not None else show(st_)[:100]}`): bytes outside the hashed part can be altered without detection")
 
     n_ret = 0
     for pc, ret, node, _st in s.returns:
@@ -164,6 +179,8 @@ def run(ctx):
         seen_d.add(k)
         ctx.ob("C03.d", e.site["function"], False, "", func=e.site["function"], file=e.site["file"], construct=f"{e.site['construct']} -> {e}",
                fail=f"{e} can escape _Packet.decode [{e.why}] via {' -> '.join(q.split('.')[-1] for q in e.chain)}: a truncated / altered packet is not rejected with a ProtocolError")
+    from ._pipeline import read_returns_decoded
+    read_returns_decoded(ctx, "C03.e")          # nothing reaches the caller of LAN.send around the verifying decoder
     ctx.require_min("returns", 1)
     ctx.require_min("comparisons", 1)
     ctx.require_min("raises", 1)
